@@ -357,7 +357,10 @@ def check_eb(rep, ix):
         muts = [s for s in gh.stmts() if isinstance(s, ast.Assign) and _n(s.targets[0]).startswith('self._ebS')]
         ok = bool(ev) and all(not gh.path_avoiding(mu, gh.EXIT, set(ev), skip_exc=True) for mu in muts)
         if fn == 'lisByteList':
-            ok = bool(ev) and ev[0] in gh.dominators().get([s for s in gh.stmts() if isinstance(s, ast.For)][0], ())
+            # before anything is collected for writing: the call dominates every other statement that reads the blocks
+            readers = [s for s in gh.stmts() if s not in ev and 'self._ebS' in _n(s)]
+            dom = gh.dominators()
+            ok = bool(ev) and bool(readers) and all(ev[0] in dom.get(s, ()) for s in readers)
         rep.ob('R-C08-EB', f'{L}:EntryBlockSet.{fn}', 'even length is re-established after every change / before writing', ok, node=h, module=m)
     lb = ix.get_func(L, 'EntryBlockSet.lisByteList')
     src = _n(lb)
